@@ -7,6 +7,8 @@ import (
 	"io"
 	"net"
 	"sync"
+	"syscall"
+	"time"
 
 	"github.com/TarsCloud/TarsGo/tars/protocol/codec"
 	"github.com/TarsCloud/TarsGo/tars/protocol/res/endpointf"
@@ -48,24 +50,36 @@ func (a *arrival) reply() error {
 }
 
 type server struct {
-	idx  int
-	ln   net.Listener
-	host string
-	port int32
+	idx      int
+	ln       net.Listener
+	host     string
+	port     int32
+	arrivals chan<- *arrival
 
 	mu    sync.Mutex
 	conns []net.Conn
+	down  bool
+	hold  int // while down: a bound, not listening socket that keeps the port (connections to it are refused); -1 if none
 }
 
 func (s *server) name() string { return fmt.Sprintf("%s:%d", s.host, s.port) }
 
 func startServer(idx int, arrivals chan<- *arrival) (*server, error) {
 	host := fmt.Sprintf("127.0.0.%d", idx)
-	ln, err := net.Listen("tcp", host+":0")
-	if err != nil {
+	s := &server{idx: idx, host: host, arrivals: arrivals, hold: -1}
+	if err := s.listen(host + ":0"); err != nil {
 		return nil, err
 	}
-	s := &server{idx: idx, ln: ln, host: host, port: int32(ln.Addr().(*net.TCPAddr).Port)}
+	s.port = int32(s.ln.Addr().(*net.TCPAddr).Port)
+	return s, nil
+}
+
+func (s *server) listen(addr string) error {
+	ln, err := net.Listen("tcp", addr)
+	if err != nil {
+		return err
+	}
+	s.ln = ln
 	go func() {
 		for {
 			c, err := ln.Accept()
@@ -75,10 +89,54 @@ func startServer(idx int, arrivals chan<- *arrival) (*server, error) {
 			s.mu.Lock()
 			s.conns = append(s.conns, c)
 			s.mu.Unlock()
-			go s.serve(c, arrivals)
+			go s.serve(c, s.arrivals)
 		}
 	}()
-	return s, nil
+	return nil
+}
+
+// goDown: the server stops listening and drops its connections; from now on a connection attempt is refused.
+// The port stays reserved (a bound socket that does not listen refuses like a free port does), so that no
+// server of a behaviour replayed in parallel can be given it in the meantime.
+func (s *server) goDown() {
+	s.ln.Close()
+	s.mu.Lock()
+	for _, c := range s.conns {
+		c.Close()
+	}
+	s.conns = nil
+	s.down = true
+	s.mu.Unlock()
+	if fd, err := syscall.Socket(syscall.AF_INET, syscall.SOCK_STREAM, 0); err == nil {
+		_ = syscall.SetsockoptInt(fd, syscall.SOL_SOCKET, syscall.SO_REUSEADDR, 1)
+		sa := &syscall.SockaddrInet4{Port: int(s.port), Addr: [4]byte{127, 0, 0, byte(s.idx)}}
+		if syscall.Bind(fd, sa) == nil {
+			s.hold = fd
+		} else {
+			syscall.Close(fd)
+		}
+	}
+}
+
+// comeBack: the server listens again on the same address.
+func (s *server) comeBack() error {
+	var err error
+	for k := 0; k < 50; k++ {
+		if err = s.listen(s.name()); err == nil {
+			break
+		}
+		time.Sleep(2 * time.Millisecond)
+	}
+	if s.hold >= 0 {
+		syscall.Close(s.hold)
+		s.hold = -1
+	}
+	if err == nil {
+		s.mu.Lock()
+		s.down = false
+		s.mu.Unlock()
+	}
+	return err
 }
 
 func (s *server) serve(c net.Conn, arrivals chan<- *arrival) {
@@ -110,6 +168,10 @@ func (s *server) serve(c net.Conn, arrivals chan<- *arrival) {
 
 func (s *server) stop() {
 	s.ln.Close()
+	if s.hold >= 0 {
+		syscall.Close(s.hold)
+		s.hold = -1
+	}
 	s.mu.Lock()
 	for _, c := range s.conns {
 		c.Close()
